@@ -63,6 +63,19 @@ CHECKS = {
             "arm, pulled arm maximises the index with a reference phase counter, refinement exactly when radius <= nu*rho^depth, fresh arms at the centres of the other children.",
             "Phase-boundary rounds where old/new phase disagree on refinement are counted ambiguous; tolerance 1e-9.",
             "stateless bounded-exhaustive script enumeration of the implementation in lock-step with a reference checker (coverage invariant + index/refinement rule)"),
+    "C12": ("model_checking", "3 C12",
+            "SequOOL x 3 partitions: every reward sequence over the whole schedule (plus tail) for n in {10,11,12} and every script within "
+            "k deviations of base scripts over the whole schedule + 3 tail rounds for n in 10..40 and 100; every make_children call is an "
+            "opening judged against the harmonic-budget schedule, hand-outs against child order, exhaustion against the domain centre / unchanged recommendation.",
+            "Runs are continued past n rounds where needed to reach the end of the schedule; ties free.",
+            "stateless bounded-exhaustive script enumeration of the implementation in lock-step with a reference model of the opening schedule"),
+    "C13": ("model_checking", "3 C13",
+            "VROOM x n in {4,8,16} x depth caps below/equal/above the ranking depth x 6 binary-child partition settings; rewards fully "
+            "enumerated for 2-4 rounds and every outcome of the internal sampling (cell index, descent directions, split/uniform fractions) "
+            "with <= k departures from the default; the probability vector intercepted at the sampler, the rank permutations, the drawn "
+            "cell, the credited path and the returned point are judged at every pull.",
+            "np.random.choice is trusted to honour p; binary-child partitions only; rank ties free.",
+            "stateless bounded-exhaustive enumeration of rewards and RNG answers through an in-process RNG seam, reference checker on the sampler's input"),
 }
 
 LATER = {
